@@ -339,7 +339,66 @@ def c06(run):
         extra_assumptions=["participle's lexer/parser library is trusted to implement the rules it is given"])
 
 
-PROPS = {"C06": c06, "C11": c11, "C04": c04, "C03": c03, "C14": c14, "C15": c15, "C13": c13, "C01": c01, "C02": c02, "C07": c07, "C08": c08, "C09": c09, "C10": c10, "C12": c12}
+# ============================================================== concurrency
+def cc_cfg(nproc, dev=(), emit=True, view=False):
+    return ("SPECIFICATION Spec\nCONSTANTS\n NProc = %d\n Dev = %s\n EmitCases = %s\n" % (nproc, vlib.tla_set(dev), "TRUE" if emit else "FALSE") +
+            "INVARIANT SerialEquivalence\nINVARIANT Isolation\nINVARIANT NoRace\nINVARIANT ReadOnlyAfterSetup\nCONSTRAINT EmitCase\nCHECK_DEADLOCK FALSE\n" +
+            ("VIEW View\n" if view else ""))
+
+
+def c05(run):
+    quick = run.tier == "quick"
+    run.build_harness()
+    race_bin = run.build_harness(race=True)
+    for d in ("SHAREDSLICE", "NOONCE"):
+        run.tlc("Concurrent", cc_cfg(2, dev=[d], emit=False, view=True), name="CC_neg_" + d, expect_violation="ReadOnlyAfterSetup")
+    # all interleavings of the model; the behaviours are emitted with their schedule of gate steps
+    r = run.model_check("Concurrent", cc_cfg(2 if quick else 3), name="CC_gen", want_cases=True, heap="24g")
+    uniq = os.path.join(run.work, "cc_uniq.jsonl")
+    seen = set()
+    with open(uniq, "w") as g:
+        for line in open(r["cases_file"]):
+            if line not in seen:
+                seen.add(line)
+                g.write(line)
+    cf = vlib.subsample(uniq, 1500 if quick else 20000, run.seed, run)
+    run.conformance("cc_gated_schedules", "conc", cf, "ConcurrentTrace", TRACE_CFG % "")
+    # free-running stress under the race detector: a fresh Flame per round, 8-64 goroutines released by a barrier
+    gen = os.path.join(run.work, "cc_stress.jsonl")
+    with open(gen, "w") as fo:
+        p = run.hrun(["conc", "gen", run.seed, 150 if quick else 5000], stdout=fo)
+    if p.returncode != 0:
+        raise Infra("conc gen failed: " + p.stderr[-2000:])
+    trace = os.path.join(run.work, "cc_stress.trace.ndjson")
+    run._cur = dict(hmodule="conc", tmodule="ConcurrentTrace", cfg_tmpl=TRACE_CFG % "", replay_args=[], env=None)
+    p = run.hrun(["conc", "replay", gen, trace], binary=race_bin, timeout=3000, env={"GORACE": "halt_on_error=0 exitcode=66"})
+    races = p.stderr.count("WARNING: DATA RACE")
+    run.cov["race_detector"] = dict(rounds=sum(1 for _ in open(gen)), reports=races, binary="go build -race")
+    if races:
+        rep = p.stderr[p.stderr.index("WARNING: DATA RACE"):][:6000]
+        if "flamego/flamego" in rep.replace("flamego/flamego/verifharness", ""):
+            run.violation("cc_stress_race", dict(kind="data-race", gen_seed=run.seed), dict(kind="race-detector-report", report=rep))
+        else:
+            raise Infra("race report inside the harness only:\n" + rep[:2000])
+    elif p.returncode != 0:
+        raise Infra("race-enabled harness failed rc=%s: %s" % (p.returncode, p.stderr[-2000:]))
+    fails, ncases, nev = run.validate("ConcurrentTrace", TRACE_CFG % "", trace, label="cc_stress")
+    run.account(trace, ncases, 1)
+    run.judge("cc_stress", "conc", fails, trace, "ConcurrentTrace", TRACE_CFG % "", [])
+    run.cov["families"].append(dict(family="cc_stress_race", cases=ncases, events=nev, rejected_events=len(fails)))
+    log("  family %-28s cases=%d events=%d rejected_events=%d race_reports=%d" % ("cc_stress_race", ncases, nev, len(fails), races))
+    return run.finish(
+        rule="TLC explores every interleaving of N requests (steps lookup / once-guarded render / fresh context / middleware / route "
+             "handler) and checks serial equivalence, isolation and that nothing shared is written after set-up except through the once "
+             "guard; every distinct schedule of gate steps is forced on the real Flame by blocking gates in Before/middleware/route handler "
+             "and each response is validated by TLC against the serial outcome; free-running rounds (fresh Flame per round so that lazily "
+             "rendered strings are rendered concurrently, 8-64 goroutines released by a barrier, all route kinds, named-route URL "
+             "building, request-scoped Map) run under the Go race detector. Non-trivial = >= 2 concurrent requests.",
+        extra_assumptions=["the data-race clause is observed by the Go race detector on the executions driven (sound for those, not all schedules)",
+                           "gated replays add happens-before edges and are not used for the race clause"])
+
+
+PROPS = {"C05": c05, "C06": c06, "C11": c11, "C04": c04, "C03": c03, "C14": c14, "C15": c15, "C13": c13, "C01": c01, "C02": c02, "C07": c07, "C08": c08, "C09": c09, "C10": c10, "C12": c12}
 
 
 def main():
